@@ -139,6 +139,16 @@ func (propC18) Gen(seed uint64, tier string, idx int) *Plan {
 			p.Stack.ReadTimeout = time.Second
 		}
 		op.Abort = &Abort{At: pickS(r, []string{"resp", "resp", "before-response"}), K: 1 + r.Pick(2000), Kind: pickS(r, []string{"fin", "rst"})}
+		if r.Chance(300) {
+			// the same on the translated streaming route, the client leaving while the backend has not even
+			// answered yet: nothing of the request may stay behind
+			scen = "abort-translated"
+			p.Stack.Passthrough = false
+			op.Path = "/olla/anthropic/v1/messages"
+			op.Body = BodySpec{Kind: "anthropic", N: 30, Model: "m1", Stream: true}
+			resp = Resp{Kind: "llm", Status: 200, Framing: "chunked", Tag: "s1", PreDelay: pickS(r, []time.Duration{500 * time.Millisecond, 2 * time.Second})}
+			op.Abort = &Abort{At: "before-response", K: 1000 * (1 + r.Pick(300)), Kind: pickS(r, []string{"fin", "rst"})}
+		}
 	}
 	ep.Default = Resp{Kind: "llm", Status: 200}
 	ep.ByNonce = map[string][]Resp{"n1": {resp}}
@@ -222,7 +232,7 @@ func (propC18) Check(r *Run) []Violation {
 				}
 			}
 		}
-	case "abort":
+	case "abort", "abort-translated":
 		if c.Aborted != "" {
 			// "promptly": a few network round trips plus the same 1 s of slack the liveness gate allows;
 			// in any case well below the read timeout, or the clause would say nothing beyond the stall clause
